@@ -155,6 +155,19 @@ def run(ctx):
         okk = len(ops) == 1 and (sym.get(ops[0]) or '').strip() == s.strip()
         ctx.check(okk, 'T4', 'token:' + tv, 'token-operator', 'token %s (`%s`) builds the operator with the same symbol (found %s: %s)' % (tv, s, ops, [sym.get(o) for o in ops]), span=f_tree.span)
 
+    # an operator character keeps its own token in front of a word: the tokenizer never folds a sign (or any other operator character)
+    # into the literal that follows it, so that a prefix `-` always reaches the tree builder as an operator subject to the precedence
+    # table (`-x ^ 2` for every literal x). Shared with C06 R6.5.
+    from rules import toksem
+    try:
+        pp = toksem.prefix_word_problems(toksem.get(prog))
+    except Exception as e:   # the tokenizer's second stage could not be read at all
+        pp = None
+    if pp is None:
+        ctx.unrecognised('T4', 'operator-before-word', 'budget', 'the second tokenizer stage could not be interpreted on an operator character followed by a word')
+    else:
+        ctx.check(not pp, 'T4', 'operator-before-word', 'sign-folded', 'an operator character followed by a word gives the operator\'s token and then the word\'s token, whatever the word is (deviations: %s)' % [m_ for _k, m_ in pp][:3])
+
     # T5 operand-boundary tables
     try:
         tp = tables.token_predicates(prog)
